@@ -164,6 +164,37 @@ def random_bytes(rng):
     return (bytes(rng.getrandbits(8) for _ in range(rng.randrange(1, 9))) * (n // 2 + 1))[:n]
 
 
+def dlis_length_fields(data):
+    """Offsets of the two-byte length fields of an RP66V1 file: [(offset, 'vr'|'lrs', length)], [] if not RP66V1-shaped."""
+    if len(data) < 84 or data[4:7] != b'V1.':
+        return []
+    out, pos = [], 80
+    while pos + 4 <= len(data) and len(out) < 4000:
+        vlen = int.from_bytes(data[pos:pos + 2], 'big')
+        if data[pos + 2:pos + 4] != b'\xff\x01' or vlen < 4:
+            break
+        out.append((pos, 'vr', vlen))
+        q, end = pos + 4, min(pos + vlen, len(data))
+        while q + 4 <= end:
+            slen = int.from_bytes(data[q:q + 2], 'big')
+            out.append((q, 'lrs', slen))
+            if slen < 4:
+                break
+            q += slen
+        pos += vlen
+    return out
+
+
+def dlis_length_overwrite(rng, data):
+    """Field-aware for RP66V1: one visible-record or segment length replaced by a boundary value."""
+    fields = dlis_length_fields(data)
+    if not fields:
+        return word_overwrite(rng, data)
+    off, kind, ln = rng.choice(fields if rng.random() < 0.5 else ([f for f in fields if f[1] == 'lrs'] or fields))
+    v = rng.choice([0, 0, 1, 2, 3, 4, 5, 15, 16, ln - 2, ln - 1, ln + 1, ln + 2, ln * 2, 0x7fff, 0x8000, 0xfffe, 0xffff]) & 0xffff
+    return data[:off] + v.to_bytes(2, 'big') + data[off + 2:]
+
+
 def mutate(rng, data, other=None, boundaries=None, texty=None):
     """One hostile variant of a valid file."""
     if texty is None:
@@ -171,7 +202,11 @@ def mutate(rng, data, other=None, boundaries=None, texty=None):
     ops = ['truncate', 'truncate', 'bitflips', 'splice', 'word', 'insert', 'delete', 'header']
     if texty:
         ops += ['number', 'number', 'number', 'line', 'line']
+    if data[4:7] == b'V1.' and len(data) > 84:
+        ops += ['dlis-length', 'dlis-length']
     op = rng.choice(ops)
+    if op == 'dlis-length':
+        return op, dlis_length_overwrite(rng, data)
     if op == 'truncate':
         return op, truncate(rng, data, boundaries)
     if op == 'bitflips':
